@@ -1,354 +1,5 @@
-// C18 implementation side: the REAL momo::DataColumnList (dynamic column lists), same case format as ocaml/driver.ml
-//
-// case line:   <L> <keep> <op> ; <op> ; ... [ ; x <t> <code> ...]  [ ; ? <code> ... ]
-//   op  a <t> <size> <align> <code> [<name>]                 Add(column)          (name given: DataColumn(name), string-hash code)
-//       g <t1> <s1> <a1> <code1> <t2> <s2> <a2> <code2>      Add(column1, column2)   (fixed type pairs only)
-//       h <t1> .. <code1> <t2> .. <code2> <t3> .. <code3>    Add(column1, column2, column3)
-//       x <t> <size> <align> <code>                          extra column for the second list of the raw test
-//       ? <code> ...                                         codes that are only probed with Contains
-// output: one line; per op   <A|T|R> <codeParam> <totalSize> <alignment> <n> code:off.. | lookups.. | contains.. | v:addend..
-//   then  " ; raw <ok|FAIL ...>"  (create / import (same list, other list) / destroy of raws, with construction
-//   counting and injected construction failures; checked here, the model side prints the constant "raw ok")
-//   then  " ; ev n: C<i> .. D<i> .. | 0: .. | 1: .."  construction/destruction order of the instrumented items (by column
-//   position) for CreateRaw+DestroyRaw and for CreateRaw with the k-th instrumented construction throwing (L2 model)
-#include "private_access.h"
-#include "momo/DataColumn.h"
-using namespace momo;
-typedef unsigned long long ull;
-
-// ---------------------------------------------------------------- instrumented non-trivial item type
-struct Registry
-{
-	std::map<const void*, int> live;      // address -> tag
-	std::map<const void*, int> nctor, ndtor;
-	std::vector<std::string> errors;
-	std::vector<std::pair<char, const void*>> log;   // constructions / destructions in order
-	long failAt = -1;                     // the k-th (0-based) construction from now throws
-	ull ctorSteps = 0;
-	void error(const std::string& s) { if (errors.size() < 20) errors.push_back(s); }
-	void reset() { live.clear(); nctor.clear(); ndtor.clear(); errors.clear(); log.clear(); failAt = -1; ctorSteps = 0; }
-	void step() { ++ctorSteps; if (failAt >= 0 && failAt-- == 0) { failAt = -1; throw std::domain_error("injected"); } }
-};
-static Registry& R() { static Registry r; return r; }
-
-template<size_t Size, size_t Align>
-struct alignas(Align) Cnt
-{
-	static_assert(Size >= sizeof(void*) + sizeof(int), "");
-	unsigned char bytes[Size];
-	std::string*& str() { return *reinterpret_cast<std::string**>(bytes); }
-	std::string* const& str() const { return *reinterpret_cast<std::string* const*>(bytes); }
-	int& tag() { return *reinterpret_cast<int*>(bytes + sizeof(void*)); }
-	const int& tag() const { return *reinterpret_cast<const int*>(bytes + sizeof(void*)); }
-	void reg(int t)
-	{
-		if (reinterpret_cast<uintptr_t>(this) % Align != 0) R().error("misaligned construction");
-		if (R().live.count(this)) R().error("double construction at the same address");
-		R().live[this] = t; ++R().nctor[this]; R().log.push_back({ 'C', this });
-	}
-	Cnt() { R().step(); std::memset(bytes, 0, Size); str() = new std::string("default constructed, long enough to allocate"); tag() = -1; reg(-1); }
-	Cnt(const Cnt& c) { R().step(); std::memset(bytes, 0, Size); str() = new std::string(*c.str()); tag() = c.tag(); reg(c.tag()); }
-	Cnt& operator=(const Cnt& c) { *str() = *c.str(); tag() = c.tag(); R().live[this] = c.tag(); return *this; }
-	~Cnt()
-	{
-		auto it = R().live.find(this);
-		if (it == R().live.end()) { R().error("destruction of an object that is not alive"); return; }
-		R().live.erase(it); ++R().ndtor[this]; R().log.push_back({ 'D', this });
-		delete str();
-	}
-};
-
-struct B3 { char d[3]; };
-struct S5 { char d[5]; };
-struct H3 { uint16_t d[3]; };
-struct W3 { uint32_t d[3]; };
-struct alignas(16) A16 { char d[16]; };
-struct Q2 { uint64_t d[2]; };
-
-template<size_t t> struct TypeOf;
-template<> struct TypeOf<0> { typedef uint8_t T; };
-template<> struct TypeOf<1> { typedef uint16_t T; };
-template<> struct TypeOf<2> { typedef uint32_t T; };
-template<> struct TypeOf<3> { typedef uint64_t T; };
-template<> struct TypeOf<4> { typedef B3 T; };
-template<> struct TypeOf<5> { typedef H3 T; };
-template<> struct TypeOf<6> { typedef W3 T; };
-template<> struct TypeOf<7> { typedef A16 T; };
-template<> struct TypeOf<8> { typedef long double T; };
-template<> struct TypeOf<9> { typedef std::string T; };
-template<> struct TypeOf<10> { typedef Cnt<16, 8> T; };
-template<> struct TypeOf<11> { typedef Cnt<24, 8> T; };
-template<> struct TypeOf<12> { typedef Cnt<16, 16> T; };
-template<> struct TypeOf<13> { typedef Cnt<48, 16> T; };
-template<> struct TypeOf<14> { typedef S5 T; };
-template<> struct TypeOf<15> { typedef Q2 T; };
-static const size_t typeCount = 16;
-
-template<typename T> struct IsCnt : std::false_type {};
-template<size_t S, size_t A> struct IsCnt<Cnt<S, A>> : std::true_type {};
-
-template<typename T> static void setVal(T& x, int seed)
-{
-	if constexpr (std::is_same<T, std::string>::value) x = "value of column " + std::to_string(seed) + ", long enough to own heap memory";
-	else if constexpr (IsCnt<T>::value) { *x.str() = "cnt " + std::to_string(seed) + " long enough to own heap memory"; x.tag() = seed; R().live[&x] = seed; }
-	else if constexpr (std::is_arithmetic<T>::value) x = static_cast<T>(seed * 37 + 1);
-	else std::memset(&x, (seed * 37 + 1) & 0xff, sizeof(T));
-}
-template<typename T> static bool hasVal(const T& x, int seed)
-{
-	if constexpr (std::is_same<T, std::string>::value) return x == "value of column " + std::to_string(seed) + ", long enough to own heap memory";
-	else if constexpr (IsCnt<T>::value) return x.tag() == seed && *x.str() == "cnt " + std::to_string(seed) + " long enough to own heap memory";
-	else if constexpr (std::is_arithmetic<T>::value) return x == static_cast<T>(seed * 37 + 1);
-	else { T y; std::memset(&y, (seed * 37 + 1) & 0xff, sizeof(T)); return std::memcmp(&x, &y, sizeof(T)) == 0; }
-}
-template<typename T> static bool isDefault(const T& x)
-{
-	if constexpr (std::is_same<T, std::string>::value) return x.empty();
-	else if constexpr (IsCnt<T>::value) return x.tag() == -1;
-	else if constexpr (std::is_arithmetic<T>::value) return x == T();
-	else { unsigned char z[sizeof(T)] = {}; return std::memcmp(&x, z, sizeof(T)) == 0; }
-}
-
-struct HarnessError { const char* what; };
-struct ColSpec { size_t t; ull size, align, code; std::string name; };
-
-#define DISPATCH(t, F, ...) \
-	switch (t) { \
-	case 0: F<0>(__VA_ARGS__); break; case 1: F<1>(__VA_ARGS__); break; case 2: F<2>(__VA_ARGS__); break; case 3: F<3>(__VA_ARGS__); break; \
-	case 4: F<4>(__VA_ARGS__); break; case 5: F<5>(__VA_ARGS__); break; case 6: F<6>(__VA_ARGS__); break; case 7: F<7>(__VA_ARGS__); break; \
-	case 8: F<8>(__VA_ARGS__); break; case 9: F<9>(__VA_ARGS__); break; case 10: F<10>(__VA_ARGS__); break; case 11: F<11>(__VA_ARGS__); break; \
-	case 12: F<12>(__VA_ARGS__); break; case 13: F<13>(__VA_ARGS__); break; case 14: F<14>(__VA_ARGS__); break; case 15: F<15>(__VA_ARGS__); break; \
-	default: throw HarnessError{"type index"}; }
-
-template<size_t L, bool keep>
-struct Runner
-{
-	typedef DataStructDefault<> Struct;
-	typedef DataColumnTraits<Struct, L> ColumnTraits;
-	typedef DataColumnList<ColumnTraits, MemManagerDefault, DataItemTraits<MemManagerDefault>, DataSettings<keep>> CL;
-	typedef typename CL::ColumnInfo ColumnInfo;
-	template<typename Item> using Col = DataColumn<Item, Struct, uint64_t>;
-	typedef DataItemTraits<MemManagerDefault> ItemTraits;
-
-	std::string problem;     // harness-level problem (bad type table, unsupported group, ...)
-
-	template<size_t t> Col<typename TypeOf<t>::T> mk(const ColSpec& c)
-	{
-		typedef typename TypeOf<t>::T T;
-		if (sizeof(T) != c.size || ItemTraits::template GetAlignment<T>() != c.align || alignof(T) != c.align)
-			problem = "BADTYPE " + std::to_string(t);
-		if (!c.name.empty())
-		{
-			Col<T> col(c.name.c_str());
-			if (col.GetCode() != c.code) problem = "BADHASH " + c.name;
-			return col;
-		}
-		return Col<T>(uint64_t(c.code), "c");
-	}
-	template<size_t t> void add1(CL& cl, const ColSpec& c) { cl.Add(mk<t>(c)); }
-	template<size_t t1, size_t t2> void add2(CL& cl, const ColSpec* c) { cl.Add(mk<t1>(c[0]), mk<t2>(c[1])); }
-	template<size_t t1, size_t t2, size_t t3> void add3(CL& cl, const ColSpec* c) { cl.Add(mk<t1>(c[0]), mk<t2>(c[1]), mk<t3>(c[2])); }
-
-	void addGroup(CL& cl, const std::vector<ColSpec>& g)
-	{
-		if (g.size() == 1) { DISPATCH(g[0].t, add1, cl, g[0]); return; }
-		size_t k = g[0].t * 256 + g[1].t * 16 + (g.size() > 2 ? g[2].t : 0);
-		if (g.size() == 2) switch (g[0].t * 16 + g[1].t)
-		{
-		case 0 * 16 + 3: add2<0, 3>(cl, g.data()); return;
-		case 9 * 16 + 2: add2<9, 2>(cl, g.data()); return;
-		case 10 * 16 + 7: add2<10, 7>(cl, g.data()); return;
-		case 12 * 16 + 4: add2<12, 4>(cl, g.data()); return;
-		case 1 * 16 + 11: add2<1, 11>(cl, g.data()); return;
-		case 13 * 16 + 0: add2<13, 0>(cl, g.data()); return;
-		case 3 * 16 + 3: add2<3, 3>(cl, g.data()); return;
-		case 10 * 16 + 12: add2<10, 12>(cl, g.data()); return;
-		}
-		if (g.size() == 3) switch (k)
-		{
-		case 0 * 256 + 10 * 16 + 3: add3<0, 10, 3>(cl, g.data()); return;
-		case 4 * 256 + 12 * 16 + 9: add3<4, 12, 9>(cl, g.data()); return;
-		case 2 * 256 + 5 * 16 + 13: add3<2, 5, 13>(cl, g.data()); return;
-		case 11 * 256 + 13 * 16 + 10: add3<11, 13, 10>(cl, g.data()); return;
-		}
-		throw HarnessError{"unsupported group"};
-	}
-
-	static size_t lookup(const CL& cl, ull code) { return cl.template GetOffset<true, uint8_t>(Col<uint8_t>(uint64_t(code), "q")); }
-
-	void dump(const CL& cl, char status, const std::vector<ull>& added, const std::vector<ull>& universe, std::string& out)
-	{
-		char buf[64];
-		snprintf(buf, sizeof buf, "%c %llu %llu %llu %llu", status, ull(cl.mCodeParam), ull(cl.GetTotalSize()), ull(cl.GetAlignment()), ull(cl.GetCount()));
-		out += buf;
-		for (const auto& rec : cl) { snprintf(buf, sizeof buf, " %llu:%llu", ull(rec.GetCode()), ull(rec.GetOffset())); out += buf; }
-		out += " |";
-		for (ull code : added) { snprintf(buf, sizeof buf, " %llu", ull(lookup(cl, code))); out += buf; }
-		out += " |";
-		for (ull code : universe)
-		{
-			size_t off = size_t(-1);
-			bool c = cl.Contains(ColumnInfo(Col<uint8_t>(uint64_t(code), "q")), &off);
-			if (c) { snprintf(buf, sizeof buf, " %llu", ull(off)); out += buf; } else out += " -";
-		}
-		out += " |";
-		for (size_t v = 0; v < cl.mAddends.size(); ++v)
-			if (cl.mAddends[v] != 0) { snprintf(buf, sizeof buf, " %llu:%llu", ull(v), ull(cl.mAddends[v])); out += buf; }
-	}
-
-	// ------------------------------------------------------------ raws
-	struct RawBuf
-	{
-		void* p; size_t size;
-		RawBuf(size_t sz, size_t al) : size(sz) { size_t a = std::max<size_t>(al, 16); p = std::aligned_alloc(a, ((sz + a - 1) / a + 1) * a); std::memset(p, 0xCD, sz); }
-		~RawBuf() { std::free(p); }
-	};
-	std::string rawErr, evTrace;
-	void fail(const std::string& s) { if (rawErr.empty()) rawErr = s; }
-
-	template<size_t t> void setCol(void* raw, size_t off, int seed) { setVal(CL::template GetByOffset<typename TypeOf<t>::T>(raw, off), seed); }
-	template<size_t t> void chkCol(void* raw, size_t off, int seed, const char* what)
-	{
-		typedef typename TypeOf<t>::T T;
-		const T& x = CL::template GetByOffset<T>(raw, off);
-		if (reinterpret_cast<uintptr_t>(&x) % alignof(T) != 0) fail(std::string(what) + ": misaligned item");
-		bool ok = seed < 0 ? isDefault(x) : hasVal(x, seed);
-		if (!ok) fail(std::string(what) + ": wrong value in column of type " + std::to_string(t));
-		if (IsCnt<T>::value)
-		{
-			if (!R().live.count(&x)) fail(std::string(what) + ": instrumented item not constructed");
-			else if (R().nctor[&x] != 1) fail(std::string(what) + ": instrumented item constructed " + std::to_string(R().nctor[&x]) + " times");
-		}
-	}
-	static bool isCntType(size_t t) { return t >= 10 && t <= 13; }
-
-	void rawTest(const CL& A, const std::vector<ColSpec>& colsA, const std::vector<ColSpec>& extras)
-	{
-		MemManagerDefault mm;
-		// second list: columns of A in reverse order without every third one, interleaved with the extras
-		CL B; std::vector<ColSpec> colsB;
-		{
-			std::vector<ColSpec> want;
-			for (size_t i = colsA.size(); i-- > 0; ) if (i % 3 != 1) want.push_back(colsA[i]);
-			for (size_t i = 0; i < extras.size(); ++i) want.insert(want.begin() + std::min(want.size(), 2 * i), extras[i]);
-			for (const ColSpec& c : want)
-			{
-				ColSpec c1 = c; c1.name.clear();
-				try { addGroup(B, { c1 }); colsB.push_back(c1); } catch (const std::exception&) {}
-			}
-		}
-		auto seedOf = [&] (ull code) { for (size_t i = 0; i < colsA.size(); ++i) if (colsA[i].code == code) return int(i); return -1; };
-		size_t cntA = 0, cntB = 0;
-		for (auto& c : colsA) cntA += isCntType(c.t);
-		for (auto& c : colsB) cntB += isCntType(c.t);
-		R().reset();
-		{
-			RawBuf a(A.GetTotalSize(), A.GetAlignment()), a2(A.GetTotalSize(), A.GetAlignment()), b(B.GetTotalSize(), B.GetAlignment());
-			A.CreateRaw(mm, a.p);
-			if (R().live.size() != cntA) fail("CreateRaw: " + std::to_string(R().live.size()) + " instrumented items alive, expected " + std::to_string(cntA));
-			for (auto& c : colsA) { DISPATCH(c.t, chkCol, a.p, lookup(A, c.code), -1, "CreateRaw"); }
-			for (size_t i = 0; i < colsA.size(); ++i) { DISPATCH(colsA[i].t, setCol, a.p, lookup(A, colsA[i].code), int(i)); }
-			for (size_t i = 0; i < colsA.size(); ++i) { DISPATCH(colsA[i].t, chkCol, a.p, lookup(A, colsA[i].code), int(i), "after assignment (overlap?)"); }
-			if constexpr (keep) { A.SetNumber(a.p, 0x0123456789abcdefull); }
-			A.ImportRaw(mm, A, a.p, a2.p);
-			if (R().live.size() != 2 * cntA) fail("ImportRaw(same list): wrong number of instrumented items alive");
-			for (size_t i = 0; i < colsA.size(); ++i) { DISPATCH(colsA[i].t, chkCol, a2.p, lookup(A, colsA[i].code), int(i), "ImportRaw(same list)"); }
-			B.ImportRaw(mm, A, a.p, b.p);
-			if (R().live.size() != 2 * cntA + cntB) fail("ImportRaw(other list): wrong number of instrumented items alive");
-			for (auto& c : colsB) { DISPATCH(c.t, chkCol, b.p, lookup(B, c.code), seedOf(c.code), "ImportRaw(other list)"); }
-			for (size_t i = 0; i < colsA.size(); ++i) { DISPATCH(colsA[i].t, chkCol, a.p, lookup(A, colsA[i].code), int(i), "source raw after imports"); }
-			if constexpr (keep) { if (A.GetNumber(a.p) != 0x0123456789abcdefull) fail("row number overwritten by a column"); }
-			B.DestroyRaw(&mm, b.p);
-			if (R().live.size() != 2 * cntA) fail("DestroyRaw(other list): wrong number of instrumented items alive");
-			A.DestroyRaw(&mm, a2.p);
-			A.DestroyRaw(&mm, a.p);
-			if (!R().live.empty()) fail("DestroyRaw: instrumented items still alive");
-			for (auto& kv : R().nctor) if (kv.second != 1 || R().ndtor[kv.first] != 1) fail("an item was not constructed and destroyed exactly once");
-			for (auto& e : R().errors) fail(e);
-		}
-		// event traces (by column position) of the instrumented items, compared with the L2 model RawLife.v
-		auto trace = [&] (const void* base)
-		{
-			std::string t;
-			for (auto& e : R().log)
-			{
-				size_t pos = size_t(-1);
-				for (size_t i = 0; i < colsA.size(); ++i)
-					if (static_cast<const char*>(base) + lookup(A, colsA[i].code) == static_cast<const char*>(e.second)) pos = i;
-				t += std::string(" ") + e.first + std::to_string(pos);
-			}
-			return t;
-		};
-		{
-			R().reset();
-			RawBuf a(A.GetTotalSize(), A.GetAlignment());
-			A.CreateRaw(mm, a.p); A.DestroyRaw(&mm, a.p);
-			evTrace = "n:" + trace(a.p);
-		}
-		// injected construction failures: whatever was constructed is destroyed again, exactly once
-		for (size_t k = 0; k < cntA; ++k)
-		{
-			R().reset(); R().failAt = long(k);
-			RawBuf a(A.GetTotalSize(), A.GetAlignment());
-			bool thrown = false;
-			try { A.CreateRaw(mm, a.p); } catch (const std::domain_error&) { thrown = true; }
-			evTrace += " | " + std::to_string(k) + ":" + trace(a.p);
-			if (!thrown) fail("CreateRaw: injected failure not propagated");
-			if (!R().live.empty()) fail("CreateRaw failure: instrumented items left alive");
-			for (auto& kv : R().nctor) if (kv.second != 1 || R().ndtor[kv.first] != 1) fail("CreateRaw failure: construct/destroy counts differ");
-			for (auto& e : R().errors) fail(e);
-		}
-		for (size_t k = 0; k < cntB; ++k)
-		{
-			R().reset();
-			RawBuf a(A.GetTotalSize(), A.GetAlignment()), b(B.GetTotalSize(), B.GetAlignment());
-			A.CreateRaw(mm, a.p);
-			size_t before = R().live.size();
-			R().failAt = long(k);
-			bool thrown = false;
-			try { B.ImportRaw(mm, A, a.p, b.p); } catch (const std::domain_error&) { thrown = true; }
-			if (!thrown) fail("ImportRaw: injected failure not propagated");
-			if (R().live.size() != before) fail("ImportRaw failure: instrumented items left alive");
-			A.DestroyRaw(&mm, a.p);
-			if (!R().live.empty()) fail("ImportRaw failure: items alive after destroying the source");
-			for (auto& e : R().errors) fail(e);
-		}
-		R().reset();
-	}
-
-	std::string run(const std::vector<std::vector<ColSpec>>& ops, const std::vector<ColSpec>& extras, const std::vector<ull>& universe)
-	{
-		std::string out;
-		CL cl;
-		std::vector<ull> added; std::vector<ColSpec> addedCols;
-		for (size_t i = 0; i < ops.size(); ++i)
-		{
-			char status = 'A';
-			try { addGroup(cl, ops[i]); }
-			catch (const std::logic_error&) { status = 'T'; }
-			catch (const std::runtime_error&) { status = 'R'; }
-			if (status == 'A') for (auto& c : ops[i]) { added.push_back(c.code); addedCols.push_back(c); }
-			if (i > 0) out += " ; ";
-			dump(cl, status, added, universe, out);
-		}
-		rawTest(cl, addedCols, extras);
-		// a copy of the list answers the same
-		{
-			CL cl2(cl); std::string o1, o2;
-			dump(cl, 'C', added, universe, o1); dump(cl2, 'C', added, universe, o2);
-			if (o1 != o2) fail("copy-constructed column list differs");
-		}
-		out += " ; raw " + (rawErr.empty() ? std::string("ok") : "FAIL " + rawErr) + " ; ev " + evTrace;
-		if (!problem.empty()) out = "HARNESS " + problem;
-		return out;
-	}
-};
-
-template<size_t L, bool keep>
-static std::string runCase(const std::vector<std::vector<ColSpec>>& ops, const std::vector<ColSpec>& extras, const std::vector<ull>& universe)
-{
-	Runner<L, keep> r; return r.run(ops, extras, universe);
-}
+// C18 implementation side, TU 1: the REAL momo::DataColumnList with the default memory manager (see c18_runner.h)
+#include "c18_runner.h"
 
 template<size_t L> static void vert(ull code, ull cp)
 {
@@ -371,34 +22,11 @@ int main()
 	{
 		std::istringstream is(line);
 		std::string first; is >> first;
-		if (first == "v") { ull L, code, cp; is >> L >> code >> cp; unitVertices(L, code, cp); continue; }
+		if (first == "v") { ull L, code, cp; is >> L >> code >> cp; unitVertices(L, code, cp); fflush(stdout); continue; }
 		if (first == "c") { ull v, m; is >> v >> m; printf("%llu\n", ull(internal::UIntMath<>::Ceil(size_t(v), size_t(m)))); continue; }
 		ull L = std::strtoull(first.c_str(), nullptr, 10), keep; is >> keep;
-		std::vector<std::vector<ColSpec>> ops; std::vector<ColSpec> extras; std::vector<ull> universe, probes;
-		std::string tok; bool bad = false;
-		auto readCol = [&] (ColSpec& c) { is >> c.t >> c.size >> c.align >> c.code; };
-		while (is >> tok)
-		{
-			if (tok == ";") continue;
-			if (tok == "a")
-			{
-				ColSpec c; readCol(c);
-				std::streampos pos = is.tellg(); std::string nm;
-				if (is >> nm) { if (nm == ";") is.seekg(pos); else c.name = nm; } else is.clear();
-				ops.push_back({ c });
-			}
-			else if (tok == "g" || tok == "h")
-			{
-				std::vector<ColSpec> g(tok == "g" ? 2 : 3);
-				for (auto& c : g) readCol(c);
-				ops.push_back(g);
-			}
-			else if (tok == "x") { ColSpec c; readCol(c); extras.push_back(c); }
-			else if (tok == "?") { ull c; while (is >> c) probes.push_back(c); is.clear(); }
-			else bad = true;
-		}
-		for (auto& g : ops) for (auto& c : g) if (std::find(universe.begin(), universe.end(), c.code) == universe.end()) universe.push_back(c.code);
-		for (ull c : probes) if (std::find(universe.begin(), universe.end(), c) == universe.end()) universe.push_back(c);
+		std::vector<std::vector<ColSpec>> ops; std::vector<ColSpec> extras; std::vector<ull> universe;
+		bool bad = !parseOps(is, ops, extras, universe);
 		std::string out;
 		try
 		{
@@ -408,7 +36,7 @@ int main()
 			else out = "?config";
 		}
 		catch (const HarnessError& e) { out = std::string("HARNESS ") + e.what; }
-		puts(out.c_str());
+		puts(out.c_str()); fflush(stdout);   // (a later case may hang or die)
 	}
 	return 0;
 }
